@@ -1564,6 +1564,7 @@ class Interp(Analyzer):
         visits = {}
         dirty = {0}
         ret_states = {}
+        last_edge = {}
         budget = 3000
         while dirty:
             budget -= 1
@@ -1572,7 +1573,13 @@ class Interp(Analyzer):
                 break
             bb = min(dirty, key=lambda b: order.get(b, 10**9))
             dirty.discard(bb)
-            if bb != 0:
+            if bb != 0 and getattr(self, 'unroll_concrete', False) and bb in cfg.loop_heads and not dirty and last_edge.get(bb) in edge \
+                    and visits.get(bb, 0) < 36:
+                # single active path reaching a loop head (nothing else pending): the state that just arrived IS the next
+                # iteration's state - no merge with earlier iterations. Used for decision tables over concrete inputs, where
+                # every branch is decided and a short loop is simply followed.
+                inn[bb] = edge[last_edge[bb]].copy()
+            elif bb != 0:
                 # in-state = join of incoming edge states
                 # join states with the same variant signature first (keeps per-variant facts relational: the
                 # Ok-paths are merged among themselves before being merged with the Err-paths)
@@ -1650,6 +1657,7 @@ class Interp(Analyzer):
                 if v in merged:
                     self.prune_dead(frame, v, merged[v])
                     edge[(bb, v)] = merged[v]
+                    last_edge[v] = (bb, v)
                     dirty.add(v)
                 elif (bb, v) in edge:
                     del edge[(bb, v)]
